@@ -42,17 +42,18 @@ Record variant := {
   v_shs_while : bool;  (* SharedMutex::lock_shared             shared_mutex.cpp:33           if -> while *)
   v_st_while : bool;   (* SharedTimedMutex::TimedWaitHelper    shared_timed_mutex.hpp:39     if -> while (r && ..) *)
   v_st_helper : bool;  (* SharedTimedMutex::TimedWaitHelper    shared_timed_mutex.hpp:48     LockHelper() when exclusive *)
+  v_shs_eq : bool;     (* SharedMutex::lock_shared             shared_mutex.cpp:34           blocked readers wait on _exclusive_queue *)
   v_sl_guard : bool    (* Scheduler::SleepPreemptive           scheduler.cpp:162-166         it != end() && before it->second *)
 }.
 
 Definition v_pinned : variant :=
   {| v_tm_while := false; v_rc_notify := false; v_rc_while := false; v_rt_while := false;
      v_sh_while := false; v_shs_while := false; v_st_while := false; v_st_helper := false;
-     v_sl_guard := false |}.
+     v_shs_eq := true; v_sl_guard := false |}.
 Definition v_repaired : variant :=
   {| v_tm_while := true; v_rc_notify := true; v_rc_while := true; v_rt_while := true;
      v_sh_while := true; v_shs_while := true; v_st_while := true; v_st_helper := true;
-     v_sl_guard := true |}.
+     v_shs_eq := true; v_sl_guard := true |}.
 
 (* ------------------------------------------------------------------ shared vocabulary *)
 
@@ -463,7 +464,8 @@ Module Sh.
 Inductive pc :=
 | Idle
 | InLockX                                  (* SharedMutex::lock's Wait on _exclusive_queue (shared_mutex.cpp:7-12) *)
-| InLockS                                  (* SharedMutex::lock_shared's Wait — also on _exclusive_queue (:32-37) *)
+| InLockS                                  (* SharedMutex::lock_shared's Wait — also on _exclusive_queue (:32-37);
+                                              with v_shs_eq = false on _shared_queue *)
 | InTimed (x : bool) (t : tmo) (dl : nat). (* SharedTimedMutex::TimedWaitHelper: exclusive -> _exclusive_queue,
                                               shared -> _shared_queue (shared_timed_mutex.hpp:39-45) *)
 
@@ -566,7 +568,7 @@ Definition uses_while (v : variant) (x : bool) : bool := if x then v_sh_while v 
 (* SharedMutex::lock / lock_shared at the test *)
 Definition lock_head (v : variant) (s : st) (f : fid) (x : bool) (first : bool) : st :=
   if blocked s x && (first || uses_while v x)
-  then set_pc (set_eq s (eq s ++ [f])) f (if x then InLockX else InLockS)
+  then (let e := x || v_shs_eq v in set_pc (set_wq s e (wq s e ++ [f])) f (if x then InLockX else InLockS))
   else add_log (set_pc (believe (if x then helper_x s else helper_s s) f x) f Idle) (RLock f x).
 
 (* SharedTimedMutex::TimedWaitHelper(timeout, exclusive) at the test *)
@@ -591,7 +593,7 @@ Definition step (v : variant) (s : st) (e : ev) : option st :=
         match pcs s f with
         | Idle => Some s
         | InLockX => if mem f (eq s) then None else Some (lock_head v s f true false)
-        | InLockS => if mem f (eq s) then None else Some (lock_head v s f false false)
+        | InLockS => if mem f (wq s (v_shs_eq v)) then None else Some (lock_head v s f false false)
         | InTimed x tm dl =>
             match wait_status f (wq s x) (Some dl) t with
             | None => None
@@ -642,7 +644,8 @@ Fixpoint run (v : variant) (s : st) (tr : list ev) : option st :=
 Definition resumable (s : st) (f : fid) : bool :=
   match pcs s f with
   | Idle => false
-  | InLockX | InLockS => negb (mem f (eq s))
+  | InLockX => negb (mem f (eq s))
+  | InLockS => negb (mem f (eq s) || mem f (sq s))
   | InTimed _ _ _ => true
   end.
 
